@@ -204,6 +204,17 @@ class DocGen:
             if rng.random() < 0.3:
                 t += "e%d" % rng.randrange(-330, 300)
             self.st("num.dbl_long")
+        elif r < 0.86:  # structured decimals: (integer digits) x (leading fraction zeros) x (significant fraction digits) x (exponent form)
+            ip = rng.choice(["0", "0", str(rng.randrange(1, 10)), "".join(rng.choice("0123456789") for _ in range(rng.choice([2, 9, 16, 22]))).lstrip("0") or "0"])
+            z = "0" * rng.choice([0, 0, 1, 3, 8, 15, 22, 23, 24, 30, 40])
+            sig = "".join(rng.choice("0123456789") for _ in range(rng.choice([1, 1, 2, 5, 9, 14, 15, 16, 17, 20])))
+            t = ip + "." + z + sig
+            e = rng.random()
+            if e < 0.25:
+                t += rng.choice("eE") + rng.choice(["", "+", "-"]) + str(rng.choice([0, 1, 7, 22, 23, 40, 100, 300]))
+            if rng.random() < 0.3:
+                t = "-" + t
+            self.st("num.dbl_structured")
         elif r < 0.9:  # subnormals / extremes
             t = rng.choice(["4.9e-324", "5e-324", "2.2250738585072014e-308", "2.2250738585072011e-308",
                             "1.7976931348623157e308", "1.7976931348623158e308", "2.4703282292062328e-324", "2.4703282292062327e-324",
